@@ -1,9 +1,9 @@
 SPECIFICATION MCSpec
 CONSTANTS
-  MaxLeaves = 8
-  WithSubtrees = TRUE
+  MaxLeaves = 5
+  WithSubtrees = FALSE
   MaxSteps = 40
-  Mut = "none"
+  Mut = "cleanup"
   FullRewindSets = FALSE
 VIEW ViewNoLen
 INVARIANT Refinement
